@@ -76,10 +76,15 @@ class C14(PropertyCheck):
     rule = ("file-system half: random histories of localized and unlocalized write/read/exists/file_exists/directory_exists/resolve/create_dir/list on real "
             "temp-directory layers, rotating over the 5 supported games x 8 languages (generator shared with C12/C13); "
             "localize itself: exhaustive over 6 localizers x 8 languages x (paths of plain components from a 10-name alphabet, depth 1-2 (thorough 1-3) exhaustively, "
-            "deeper sampled) x trailing slash; degenerate strings; all strings up to length 5 over {a . / space} for no-panic. "
+            "deeper sampled) x trailing slash; degenerate strings; all strings up to length 5 over {a . / space} plus strings with 2-, 3- and 4-byte characters next to every '/' "
+            "(inside and outside the modelled path shapes) for no-panic - the model now HAS a panic outcome (LPanic at the two to_str().unwrap() sites), so a panic of the "
+            "implementation is a correspondence difference as well as an oracle failure. "
             "Non-trivial = localizer other than NoOp on a structured path; distinct = distinct case line.")
     assumptions = ["A-fs: std::path::Path::{parent,file_name} modelled on plain-component paths and the strings \"\", \"/\", \"..\", \".\" only; "
-                   "other strings are compared for 'returns, does not panic' only"]
+                   "other strings are compared for 'returns, does not panic' only",
+                   "A-fs (UTF-8 slices): the &OsStr values Path::parent / Path::file_name return for Path::new(&str) are sub-slices of that str cut next to '/' bytes "
+                   "(ASCII, so never inside a multi-byte sequence), hence valid UTF-8: in the model, sub-lists of the caller's list of scalar values; "
+                   "C14_no_panic / C14_total are proved from it (C14_unwrap_sites_never_fail for every string, C14_model_slices_are_substrings for the modelled shapes)"]
 
     def corpus(self):
         out = []
@@ -112,6 +117,10 @@ class C14(PropertyCheck):
                 for l in range(8):
                     cases.append(Case("c14 %d %d %s" % (g, l, L(p)), "degenerate"))
         arb = ["a//b", "./a", "a/..", "a/./b", "/a", "//", "a/../b", "../a", "a/.", "~", "a\\b", "a/b//", "/a/b", " / "]
+        # multi-byte characters right next to the cuts Path::parent / file_name make (assumption A-fs, UTF-8 slices): 2-, 3- and 4-byte
+        # sequences before / after '/', also in shapes outside the modelled domain
+        arb += ["é/é", "日/本/", "/日", "é//日", "./é", "日/..", "\U0001F600/\U0001F600", "a/\U0001F600/", "\U0001F600//é/.", "é/./日", "../日",
+                "\u00e9", "日本/", "\ud7ff/\ue000", "\U0010ffff/\U0010ffff/\U0010ffff"]
         for n in range(0, 6):
             for t in itertools.product("a./ ", repeat=n):
                 arb.append("".join(t))
@@ -169,13 +178,13 @@ MANIFEST = dict(
     text="Theorems about an executable Gallina model of the six path localizers: the transcribed per-language push strings equal the "
          "specification table written from the property text for all 5x8 pairs (finite proof), localize = directory part + marker + final "
          "component on every path of plain components (any depth, any characters, trailing slash or not), single components get the marker "
-         "appended, degenerate paths are errors; model tied to /repo by exhaustive correspondence over localizers x languages x a structured path "
+         "appended, degenerate paths are the exact errors MissingParent ('', '/') / MissingFileName ('..', '.') before UnsupportedLanguage; NEVER PANICS: the model's result type has a panic outcome LPanic placed at the two `to_str().unwrap()` sites of localization.rs (OsStr::to_str modelled as 'Some iff valid Unicode'), and C14_no_panic / C14_total prove that for every localizer, language and every string that is a Rust str (list of scalar values) the result is Ok of a str, an error, or 'outside the modelled path shapes' - never LPanic - because the slices reaching the unwrap sites are sub-slices of the caller's str (C14_unwrap_sites_never_fail holds for ANY sub-slice, i.e. also outside the modelled shapes, under assumption A-fs on Path::parent/file_name; C14_model_slices_are_substrings discharges it for the model); C14_fs_no_panic lifts it to the file-system operations; the trailing '/' of the input is dropped ('a/b/' -> 'a/<marker>b', pinned by C14_example_trailing_slash); model tied to /repo by exhaustive correspondence over localizers x languages x a structured path "
          "family plus arbitrary strings (no panic), and an independent oracle table. File-system half (last sentence of the property): "
          "C14_fs_consistent - every operation with localized=true equals the same operation with localized=false on localize p (addressing, "
          "existence queries, resolve, list, subdirectories, create_dir, and read/write under the codec-by-name side condition, which "
-         "C14_fs_same_codec discharges for dir/name paths), C14_fs_localisation_error; tied to /repo by localized-access histories on real "
+         "C14_fs_same_codec discharges for dir/name paths - necessary: C14_fs_example_trailing_slash_raw shows read('d/z.lz/', localized) returning the raw stored stream), C14_fs_localisation_error (all nine operations); tied to /repo by localized-access histories on real "
          "temp directories with a walk of every layer after every call.",
     note=TB + "Modelled, not verified: std::path::Path::parent/file_name (on plain-component paths and the strings \"\", \"/\", \"..\", \".\"); "
-              "other strings are outside the model and only checked for 'returns, no panic'. A-fs for the file-system half (std::fs, glob, normpath) as in C12/C13.",
+              "other strings are outside the model's VALUE and only checked for 'returns, no panic' (their panic-freedom is covered by C14_unwrap_sites_never_fail under the assumption that Path::parent/file_name return sub-slices of the input cut at '/' bytes, which is not verified against std). A-fs for the file-system half (std::fs, glob, normpath) as in C12/C13.",
     technique="Coq proof (finite table by computation + list lemmas on split/join) + exhaustive extracted-model differential check",
     ref="DESIGN.md section 5 (C14)")
